@@ -97,16 +97,18 @@ def parseTokens (s : String) : Option (List Spec.Token) :=
       | _ => none
     else none
 
+/-- `BitStreamReader` op sequences run on `CBits`, the class as written with its shift register (proved equal to the
+    pure bit function by `C04_bit_reader_refines`) -/
 def bitsOps (data : Array UInt8) (ops : String) : Option String := do
-  let mut p := 0
+  let mut c : CBits := { pos := 0, buf := 0 }
   let mut outs : Array String := #[]
-  for c in ops.toList do
-    if c == 'b' then
-      let (b, p') := readBit data p; p := p'; outs := outs.push (toString b)
-    else if c == '8' then
-      let (v, p') := read8 data p; p := p'; outs := outs.push (toString v)
-    else if c == 'e' then outs := outs.push (if endOfStream data p then "E" else "n")
-    else if c == 'p' then outs := outs.push s!"@{p}"
+  for ch in ops.toList do
+    if ch == 'b' then
+      let (b, c') := CBits.readBit data c; c := c'; outs := outs.push (toString b)
+    else if ch == '8' then
+      let (v, c') := CBits.read8 data c; c := c'; outs := outs.push (toString v)
+    else if ch == 'e' then outs := outs.push (if endOfStream data c.pos then "E" else "n")
+    else if ch == 'p' then outs := outs.push s!"@{c.pos}"
     else none
   pure (if outs.isEmpty then "-" else ",".intercalate outs.toList)
 
